@@ -58,20 +58,128 @@ def mutate (ks : Nat) (kind : String) (p : Nat) (c : Bytes) : Option Bytes :=
   else if kind = "swap" then some (c.drop ks ++ c.take ks)
   else none
 
+/-! ### arm tags (which model branch an op took; see GUIDE "Arm coverage") -/
+
+/-- mirrors `utf8Valid`: the kind of every sequence met and the reason of the first rejection -/
+def utf8Arms : Bytes → List String
+  | [] => []
+  | b0 :: rest =>
+    if b0 < 0x80 then "u8-ascii" :: utf8Arms rest
+    else if b0 < 0xC2 then [if b0 < 0xC0 then "u8-bad-lead-cont" else "u8-bad-lead-c0c1"]
+    else if b0 ≤ 0xDF then
+      match rest with
+      | b1 :: r => if cont b1 then "u8-2" :: utf8Arms r else ["u8-bad-cont2"]
+      | _ => ["u8-trunc2"]
+    else if b0 ≤ 0xEF then
+      match rest with
+      | b1 :: b2 :: r =>
+        let t :=
+          if b0 = 0xE0 then (if b1 < 0xA0 then "u8-e0-overlong" else if b1 = 0xA0 then "u8-e0-a0" else "u8-3")
+          else if b0 = 0xED then (if b1 > 0x9F then "u8-ed-surrogate" else if b1 = 0x9F then "u8-ed-9f" else "u8-3")
+          else "u8-3"
+        if (if b0 = 0xE0 then 0xA0 ≤ b1 && b1 ≤ 0xBF
+            else if b0 = 0xED then 0x80 ≤ b1 && b1 ≤ 0x9F else cont b1) && cont b2
+        then t :: utf8Arms r else [if t = "u8-3" ∨ t = "u8-e0-a0" ∨ t = "u8-ed-9f" then "u8-bad-cont3" else t]
+      | _ => ["u8-trunc3"]
+    else if b0 ≤ 0xF4 then
+      match rest with
+      | b1 :: b2 :: b3 :: r =>
+        let t :=
+          if b0 = 0xF0 then (if b1 < 0x90 then "u8-f0-overlong" else if b1 = 0x90 then "u8-f0-90" else "u8-4")
+          else if b0 = 0xF4 then (if b1 > 0x8F then "u8-f4-too-big" else if b1 = 0x8F then "u8-f4-8f" else "u8-4")
+          else "u8-4"
+        if (if b0 = 0xF0 then 0x90 ≤ b1 && b1 ≤ 0xBF
+            else if b0 = 0xF4 then 0x80 ≤ b1 && b1 ≤ 0x8F else cont b1) && cont b2 && cont b3
+        then t :: utf8Arms r else [if t = "u8-4" ∨ t = "u8-f0-90" ∨ t = "u8-f4-8f" then "u8-bad-cont4" else t]
+      | _ => ["u8-trunc4"]
+    else ["u8-bad-lead-f5ff"]
+
+def blocksTag (pre : String) (n : Nat) : String :=
+  pre ++ (if n = 0 then "0" else if n = 1 then "1" else if n = 2 then "2" else "3plus")
+
+/-- the branch `legacy_password_decrypt` takes (retraces `decryptW`) -/
+def decArms (r : Rsa) (pad : Padding) (secret : Option Bytes) (nonce : Bytes) : List String :=
+  match secret with
+  | Option.none => ["dec-null"]
+  | some src =>
+    if src.length % r.ks != 0 then ["dec-len-not-multiple"] else
+    let bl := blocksTag "dec-blocks-" (src.length / r.ks)
+    match privateDecrypt r pad src src.length with
+    | .panic => ["dec-panic"]
+    | .err _ => [bl, "dec-rsa-fail"]
+    | .ok plain =>
+      let actual := plain.length
+      let dst := plain ++ List.replicate (src.length - actual) 0
+      if dst.length < 4 then [bl, "dec-dst-short"] else
+      let psize := rd32 dst
+      let a4 := if actual < 4 then ["dec-actual-lt4"] else []
+      if psize + 4 < actual then [bl, if psize + 5 = actual then "dec-size-lt-by1" else "dec-size-lt"] ++ a4
+      else if psize + 4 > actual then [bl, if psize + 3 = actual then "dec-size-gt-by1" else "dec-size-gt"] ++ a4
+      else if nonce.length > psize then
+        [bl, if nonce.length = psize + 1 then "dec-nonce-gt-by1" else "dec-nonce-gt"]
+      else
+        let nbeg := actual - nonce.length
+        if (dst.drop nbeg).take nonce.length ≠ nonce then [bl, "dec-nonce-mismatch"]
+        else
+          let pw := (dst.drop 4).take (nbeg - 4)
+          [bl, if nonce.length = psize then "dec-nonce-eq-psize" else "dec-nonce-lt-psize",
+           if nonce.isEmpty then "dec-nonce-empty" else "dec-nonce-nonempty"] ++ utf8Arms pw ++
+          [if utf8Valid pw then "dec-ok" else "dec-utf8-bad"]
+
+/-- plaintext length against the RSA block size -/
+def encArms (ks : Nat) (pad : Padding) (plen : Nat) : List String :=
+  match ptbs ks pad with
+  | Option.none => ["enc-unsupported-padding"]
+  | some b =>
+    if b = 0 then [] else
+    [blocksTag "enc-blocks-" ((plen + b - 1) / b),
+     if plen % b = 0 then "enc-last-block-full" else "enc-last-block-partial"] ++
+    (if plen + 1 = b then ["enc-len-eq-block-minus1"] else if plen = b then ["enc-len-eq-block"]
+     else if plen = b + 1 then ["enc-len-eq-block-plus1"] else [])
+
+def isSuffix (a b : Bytes) : Bool := a.length ≤ b.length && b.drop (b.length - a.length) == a
+
+/-- how the decryption nonce relates to the encryption nonce -/
+def nonceRelArm (pw n1 n2 : Bytes) : String :=
+  if n2 = n1 then "rt-same-nonce"
+  else if n2.length = n1.length then "rt-other-nonce-same-length"
+  else if n2.length > 4 + pw.length + n1.length then "rt-nonce-longer-than-plaintext"
+  else if n2.length > pw.length + n1.length then "rt-nonce-overlaps-length-prefix"
+  else if isSuffix n2 (pw ++ n1) then (if n2.length < n1.length then "rt-nonce-proper-suffix" else "rt-nonce-tail-into-password")
+  else "rt-other-nonce-other-length"
+
+def padName : Padding → String
+  | .pkcs1 => "pkcs1" | .oaepSha1 => "oaep" | .oaepSha256 => "oaep256" | .pss => "pss"
+
+def policyName : Policy → String
+  | .none => "none" | .basic128Rsa15 => "basic128rsa15" | .basic256 => "basic256"
+  | .basic256Sha256 => "basic256sha256" | .aes128Sha256RsaOaep => "aes128sha256rsaoaep"
+  | .aes256Sha256RsaPss => "aes256sha256rsapss" | .unknown => "unknown"
+
+def withArms (res : String) (arms : List String) : String :=
+  if arms.isEmpty then res else res ++ " @@ " ++ ",".intercalate arms.eraseDups
+
+def parseTokAlg? (s : String) : Option TokAlg :=
+  if s = "-" then some .empty else if s = "rsa15" then some (.uri .rsa15)
+  else if s = "rsaoaep" then some (.uri .rsaOaep) else if s = "rsaoaep256" then some (.uri .rsaOaepSha256)
+  else if s = "other" then some .other else Option.none
+
 def dstep (s : DState) (toks : List String) : DState × String :=
   let r := toyRsa s.ks
   match toks with
   | ["reset", bits, pad] =>
     match bits.toNat?, parsePad? pad with
-    | some bits, some pad => ({ ks := bits / 8, pad := pad }, "ok")
+    | some bits, some pad => ({ ks := bits / 8, pad := pad }, withArms "ok" [s!"cfg-{padName pad}-{bits}"])
     | _, _ => (s, "bad-op")
   | ["rt", pw, n1, n2] =>
     match hexToBytes (pw.drop 1).toString, hexToBytes n1, hexToBytes n2 with
     | some pw, some n1, some n2 =>
+      let ea := encArms s.ks s.pad (4 + pw.length + n1.length)
       match encrypt r s.pad 0 pw n1 with
-      | .ok c => (s, showDec true c.length (decrypt r s.pad (some c) n2))
+      | .ok c => (s, withArms (showDec true c.length (decrypt r s.pad (some c) n2))
+          (nonceRelArm pw n1 n2 :: ea ++ decArms r s.pad (some c) n2))
       | .err _ => (s, "err enc")
-      | .panic => (s, "panic")
+      | .panic => (s, withArms "panic" ea)
     | _, _, _ => (s, "bad-op")
   | ["craft", pt, n] =>
     match hexToBytes pt, hexToBytes n with
@@ -80,28 +188,64 @@ def dstep (s : DState) (toks : List String) : DState × String :=
       | none => (s, "panic")
       | some csize =>
         match publicEncrypt r s.pad 0 pt csize with
-        | .ok c => (s, showDec true c.length (decrypt r s.pad (some c) n))
+        | .ok c => (s, withArms (showDec true c.length (decrypt r s.pad (some c) n))
+            ("craft" :: encArms s.ks s.pad pt.length ++ decArms r s.pad (some c) n))
         | .err _ => (s, "err enc")
         | .panic => (s, "panic")
     | _, _ => (s, "bad-op")
   | ["raw", c, n] =>
     if c = "-" then
       match hexToBytes n with
-      | some n => (s, showDec false 0 (decrypt r s.pad none n))
+      | some n => (s, withArms (showDec false 0 (decrypt r s.pad none n)) (decArms r s.pad none n))
       | none => (s, "bad-op")
     else
     match hexToBytes c, hexToBytes n with
-    | some c, some n => (s, showDec false c.length (decrypt r s.pad (some c) n))
+    | some c, some n => (s, withArms (showDec false c.length (decrypt r s.pad (some c) n))
+        ("raw" :: decArms r s.pad (some c) n))
     | _, _ => (s, "bad-op")
   | ["tok", chan, tp, pw, n] =>
     match parsePolicy? chan, parseTokenPolicy? tp, hexToBytes (pw.drop 1).toString, hexToBytes n with
     | some chan, some tp, some pw, some n =>
+      let tpArm := match tp with
+        | Option.none => "tok-tp-empty"
+        | some .unknown => "tok-tp-unrecognised"
+        | some .none => "tok-tp-none"
+        | some _ => "tok-tp-policy"
+      let arms := [tpArm, "tok-chan-" ++ policyName chan, "tok-eff-" ++ policyName (effectivePolicy chan tp)]
       match makeToken r 0 chan tp n pw with
       | .ok (field, alg) =>
+        let arms := arms ++ ["tok-alg-" ++ algName alg]
         match decryptToken r (some field) alg n with
-        | .ok p => (s, s!"ok {algName alg} {field.length} ok s{bytesToHex p}")
-        | .err e => (s, s!"ok {algName alg} {field.length} err {errName e}")
+        | .ok p => (s, withArms s!"ok {algName alg} {field.length} ok s{bytesToHex p}" arms)
+        | .err e => (s, withArms s!"ok {algName alg} {field.length} err {errName e}" arms)
         | .panic => (s, "panic")
+      | .err _ => (s, "err enc")
+      | .panic => (s, withArms "panic" ("tok-panic" :: arms))
+    | _, _, _, _ => (s, "bad-op")
+  | ["dtok", alg, "plain", field, n] =>
+    -- `decrypt_user_identity_token_password` on a token with an arbitrary algorithm and password field
+    match parseTokAlg? alg, (if field = "-" then some Option.none else (hexToBytes field).map some), hexToBytes n with
+    | some alg, some field, some n =>
+      let arms := ["dtok-alg-" ++ algName alg, if field.isNone then "dtok-field-null" else "dtok-field-bytes"] ++
+        (match alg with
+         | .empty => utf8Arms (field.getD []) ++ [if utf8Valid (field.getD []) then "dtok-plain-ok" else "dtok-plain-utf8-bad"]
+         | .other => ["dtok-unsupported-algorithm"]
+         | .uri u => decArms r u.padding field n)
+      let detail := match alg with | .uri _ => false | _ => true
+      (s, withArms (showDec detail ((field.getD []).length) (decryptToken r field alg n)) arms)
+    | _, _, _ => (s, "bad-op")
+  | ["dtok", alg, "enc", epad, pw, n] =>
+    -- … on a password really encrypted with padding `epad`, labelled with algorithm `alg`
+    match parseTokAlg? alg, parsePad? epad, hexToBytes (pw.drop 1).toString, hexToBytes n with
+    | some alg, some epad, some pw, some n =>
+      match encrypt r epad 0 pw n with
+      | .ok c =>
+        let (detail, arm) := match alg with
+          | .uri u => (decide (u.padding = epad), if u.padding = epad then "dtok-padding-matches-label" else "dtok-padding-differs-from-label")
+          | .other => (true, "dtok-unsupported-algorithm")
+          | .empty => (false, "dtok-ciphertext-read-as-plaintext")
+        (s, withArms (showDec detail c.length (decryptToken r (some c) alg n))
+          ["dtok-alg-" ++ algName alg, "dtok-enc-" ++ padName epad, arm])
       | .err _ => (s, "err enc")
       | .panic => (s, "panic")
     | _, _, _, _ => (s, "bad-op")
@@ -111,7 +255,8 @@ def dstep (s : DState) (toks : List String) : DState × String :=
       match encrypt r s.pad 0 pw n with
       | .ok c =>
         match mutate s.ks kind p c with
-        | some c' => (s, showDec false c'.length (decrypt r s.pad (some c') n))
+        | some c' => (s, withArms (showDec false c'.length (decrypt r s.pad (some c') n))
+            (("mut-" ++ kind) :: decArms r s.pad (some c') n))
         | none => (s, "bad-op")
       | .err _ => (s, "err enc")
       | .panic => (s, "panic")
